@@ -1,32 +1,42 @@
 #!/usr/bin/env python3
 """tools/seedrun.py [seed names...]: apply each kept seeded change (seeded/<name>/patch.diff) to a scratch copy of the CURRENT /repo tree,
-run all 18 quick checks against it and print which fire. Scratch copies are removed immediately."""
+run all 18 quick checks against it (tools/fastcheck.py, one process per tree, several trees in parallel) and print which fire.
+Scratch copies are removed immediately."""
 import json, os, shutil, subprocess, sys
+from concurrent.futures import ThreadPoolExecutor
 HERE = os.path.dirname(os.path.dirname(os.path.abspath(__file__)))
 names = sys.argv[1:] or sorted(os.listdir(os.path.join(HERE, "seeded")))
-summary = {}
-for name in names:
+names = [n for n in names if os.path.exists(os.path.join(HERE, "seeded", n, "patch.diff"))]
+TMP = os.environ.get("TMPDIR", "/var/tmp")
+
+
+def one(name):
     sd = os.path.join(HERE, "seeded", name)
-    if not os.path.exists(os.path.join(sd, "patch.diff")):
-        continue
-    d = os.path.join(os.environ.get("TMPDIR", "/var/tmp"), "seedrun-" + name)
+    d = os.path.join(TMP, "seedrun-%d-%s" % (os.getpid(), name))
     shutil.rmtree(d, ignore_errors=True)
     subprocess.run(["rsync", "-a", "--exclude", "target", "--exclude", ".git", "/repo/", d + "/"], check=True)
-    r = subprocess.run(["patch", "-p1", "-s", "-i", os.path.join(sd, "patch.diff")], cwd=d, capture_output=True, text=True)
-    if r.returncode != 0:
-        print(name, "PATCH DOES NOT APPLY to the current tree:", (r.stdout + r.stderr)[-200:])
+    try:
+        r = subprocess.run(["patch", "-p1", "-s", "-i", os.path.join(sd, "patch.diff")], cwd=d, capture_output=True, text=True)
+        if r.returncode != 0:
+            return name, None, "PATCH DOES NOT APPLY to the current tree: " + (r.stdout + r.stderr)[-200:]
+        rr = subprocess.run([sys.executable, os.path.join(HERE, "tools", "fastcheck.py"), d], capture_output=True, text=True)
+        try:
+            fired = json.loads(rr.stdout.strip().splitlines()[-1])
+        except Exception:
+            fired = {"engine": ["ENGINE-ERROR " + (rr.stdout + rr.stderr)[-300:]]}
+        return name, fired, None
+    finally:
         shutil.rmtree(d, ignore_errors=True)
-        continue
-    fired = {}
-    for i in range(1, 19):
-        p = "C%02d" % i
-        rr = subprocess.run([os.path.join(HERE, "check"), p, "--repo", d], capture_output=True, text=True)
-        if rr.returncode == 2:
-            fired[p] = ["ENGINE-ERROR " + rr.stderr[-200:]]
-        elif rr.returncode != 0:
-            fired[p] = [l.strip()[5:] for l in rr.stdout.splitlines() if l.strip().startswith("rule=")]
-    shutil.rmtree(d, ignore_errors=True)
-    target = name.split("-")[0]
-    summary[name] = fired
-    print(name, "TARGET-FIRED" if target in fired else "TARGET-MISSED", json.dumps({k: [x[:80] for x in v] for k, v in fired.items()}))
-json.dump(summary, open(os.path.join(HERE, "seeded", "_last_run.json"), "w"), indent=1)
+
+
+summary = {}
+with ThreadPoolExecutor(int(os.environ.get("JOBS", "6"))) as ex:
+    for name, fired, err in ex.map(one, names):
+        if err:
+            print(name, err)
+            continue
+        target = name.split("-")[0]
+        summary[name] = fired
+        print(name, "TARGET-FIRED" if target in fired else "TARGET-MISSED", json.dumps({k: [x[:80] for x in v] for k, v in fired.items()}), flush=True)
+if not sys.argv[1:]:
+    json.dump(summary, open(os.path.join(HERE, "seeded", "_last_run.json"), "w"), indent=1)
